@@ -19,6 +19,6 @@ ObsSeq  == SetToSeq({c \in ObsCalls : Seeded(c) /\ c.seed = OneSeed})
 Code(c) == CHOOSE i \in DOMAIN HistSeq : HistSeq[i] = c
 Pick(h) == ((Code(h[1]) + 2 * Code(h[2]) + 3 * Code(h[3])) % Len(ObsSeq)) + 1
 Emit == (done' /\ ~done /\ (Len(hist) < 3 \/ out'.call = ObsSeq[Pick(hist)])) =>
-          PrintT(ToJson([hist |-> hist, call |-> out'.call, stream |-> out'.stream, stage2 |-> out'.stage2,
+          PrintT(ToJson([style |-> style, hist |-> hist, call |-> out'.call, stream |-> out'.stream, stage2 |-> out'.stage2,
                          seeded |-> Seeded(out'.call), fresh |-> (out'.stream = Fresh(out'.call))]))
 =============================================================================
